@@ -784,6 +784,15 @@ def get_time_maps_from_alignment(
         [np.mean(perf_onsets[u.astype(int)]) for u in score_unique_onset_idxs]
     )
 
+    if len(score_unique_onsets) == 0:
+        # no matched onset to interpolate between (no matches, or only grace
+        # notes matched): every time maps to zero
+
+        def zero_map(t):
+            return np.zeros_like(np.asarray(t, dtype=float))
+
+        return zero_map, zero_map
+
     # Get maps
     ptime_to_stime_map = interp1d(
         x=eq_perf_onsets,
@@ -850,7 +859,7 @@ def get_matched_notes(spart_note_array, ppart_note_array, alignment):
             "(maybe due to repeat unfolding)."
         )
 
-    return np.array(matched_idxs)
+    return np.array(matched_idxs, dtype=int).reshape(-1, 2)
 
 
 #### Sequence Processing: onset-wise/note-wise/monotonicity/uniqueness ####
